@@ -68,7 +68,7 @@ func protocolMore(t *testing.T, bind *Binding, job *Job, p *sdl.Program, acc *st
 		var comps, closers []string
 		for _, i := range p.Instances {
 			comps = append(comps, p.NameOf(i))
-			if p.TypeByName(i.Type).Role == "closer" {
+			if t := p.TypeByName(i.Type); t.Role == "closer" || t.AlsoCloser {
 				closers = append(closers, i.ID)
 			}
 		}
@@ -116,7 +116,7 @@ func protocolMore(t *testing.T, bind *Binding, job *Job, p *sdl.Program, acc *st
 	case "C14":
 		var closers []string
 		for _, i := range p.Instances {
-			if p.TypeByName(i.Type).Role == "closer" {
+			if t := p.TypeByName(i.Type); t.Role == "closer" || t.AlsoCloser {
 				closers = append(closers, i.ID)
 			}
 		}
